@@ -114,6 +114,28 @@ Example C08_wide_field_example :
   /\ buf_to_int64 [255; 255]%N = 65535%Z.
 Proof. exact buf_top_bit_negative. Qed.
 
+(* ---- BER length and end-of-contents (pkcs7/ber.go: readLength, isIndefiniteTermination) ---- *)
+
+(* For EVERY byte string and EVERY int offset readLength makes no index or slice access outside
+   [0, len); a returned length is >= 0 and the returned cursor lies in (offset, len]. *)
+Theorem ber_read_length_in_bounds : forall ber offset, bytes_wf ber ->
+  match read_length ber offset with
+  | LOOB => False
+  | LErr => True
+  | LOk len _ next => (0 <= len)%Z /\ (offset < next <= Z.of_nat (length ber))%Z
+  end.
+Proof. exact read_length_safe. Qed.
+Print Assumptions ber_read_length_in_bounds.
+
+(* isIndefiniteTermination never reads outside [0, len) either (it needs BOTH octets to be there). *)
+Theorem ber_eoc_check_in_bounds : forall ber offset, is_indef_term ber offset <> IOOB.
+Proof. exact is_indef_term_safe. Qed.
+Print Assumptions ber_eoc_check_in_bounds.
+
+Example C08_ber_example :
+  getb [48; 128; 2; 1; 1; 0]%N 6 = None /\ is_indef_term [48; 128; 2; 1; 1; 0]%N 5 = IErr.
+Proof. exact is_indef_term_needs_two. Qed.
+
 (* ---- the object parser (ParseObjectContext / parseObjectContext / parseArray / parseDict) ---- *)
 
 (* For ALL byte strings, all limits and start levels, and whatever the token-level readers do: no call
